@@ -65,14 +65,19 @@ UTAB = [{}] + [{i: F(1)} for i in range(len(ATOMS))] + [
 NU = len(UTAB)
 # variables: index 3*u + j  (j = 0: no initial value, 1: initial value 1.5 or 2, 2: initial value 0)
 INIT = [None, F(3, 2), F(0)]
-NV = 3 * NU
+# extra dimensionless variables with negative / other initial values (indices 3*NU ...), used by the deterministic
+# "never another exception type" stratum of c04.py
+EXTRA_VARS = [(0, F(-5, 2)), (0, F(-1)), (0, F(4)), (0, F(-1, 2))]
+NV = 3 * NU + len(EXTRA_VARS)
 
 
 def var_unit(v):
-    return v // 3
+    return v // 3 if v < 3 * NU else EXTRA_VARS[v - 3 * NU][0]
 
 
 def var_init(v):
+    if v >= 3 * NU:
+        return EXTRA_VARS[v - 3 * NU][1]
     j = v % 3
     if j == 1 and (v // 3) % 2 == 0:
         return F(2)
@@ -432,7 +437,7 @@ def leaf_unit(leaf):
 def with_unit(leaf, u):
     if leaf[0] == 2:
         return [2, leaf[1], leaf[2], u]
-    return [3, 3 * u + leaf[1] % 3]
+    return [3, 3 * u + (leaf[1] % 3 if leaf[1] < 3 * NU else 1)]
 
 
 def closed_exponent(x):
